@@ -31,6 +31,7 @@ execution (`C07_assignment_rhs`).  The tie to the code is decided per run by `ch
 import Circomspect.Lemmas.DegreeLemmas
 import Circomspect.Lemmas.PathDegrees
 import Circomspect.Lemmas.PathValues
+import Circomspect.Lemmas.CfgReachLemmas
 
 namespace Circomspect.C07
 open Circomspect Gen Algebra Propagate Ir
@@ -194,6 +195,15 @@ theorem C07_conditional_join (env : DegEnv) (h : env.condJoin = true) (a : Ann) 
 theorem C07_join_flag (blocks : List Block) (env : DegEnv) (b : Block) :
     (setJoin blocks env b).condJoin = true ↔ ∃ h, h ∈ b.conds ∧ condConst blocks h = false := by
   simp [setJoin, List.any_eq_true]
+
+/-- which conditions guard a join (`get_join_conditions`, `CfgReach.joinConds`): the if statements at the blocks from which a
+    predecessor of the join can be reached without entering its immediate dominator.  Every path to the join passes through the
+    dominator; after leaving it for the last time the path runs through these blocks only, so the decisions taken there — and
+    no others — select the predecessor through which the join is entered, i.e. the argument the phi takes. -/
+theorem C07_join_conditions (es : List (Nat × Nat)) (idom : Option Nat) (j x : Nat) :
+    x ∈ CfgReach.joinWalk es idom j ↔
+      ∃ p, (p, j) ∈ es ∧ Taint.Reach (es.filter (fun e => some e.2 != idom)) x p :=
+  CfgReach.mem_joinWalk es idom j x
 
 /-- after the repair: no claim for the read behind the join decided by the signal … -/
 theorem C07_control_dependence_repaired : claimOf cd = [none] := by decide
